@@ -14,8 +14,8 @@ import (
 	"time"
 
 	"verifsim/core"
-	"verifsim/kernel"
 	_ "verifsim/hook"
+	"verifsim/kernel"
 	_ "verifsim/props/all"
 )
 
@@ -178,6 +178,10 @@ func runRange(t *testing.T, p *core.Prop, c *cmd, o *out, journal *os.File, race
 			if agg.HarnessMsg == "" {
 				agg.HarnessMsg = fmt.Sprintf("seed %d: %s", seed, res.Msg)
 			}
+		}
+		if core.Abandon {
+			o.emit(map[string]any{"kind": "abandon", "seed": seed, "idx": idx})
+			os.Exit(0)
 		}
 		if res.Nontrivial {
 			agg.Nontrivial++
